@@ -991,7 +991,12 @@ static void janet_thread_chan_cb(JanetEVGenericMessage msg) {
         } else if (mode == JANET_CP_MODE_WRITE) {
             janet_schedule(fiber, janet_wrap_channel(channel));
         } else { /* (mode == JANET_CP_MODE_CLOSE) */
-            janet_schedule(fiber, janet_wrap_nil());
+            /* Same results as a close from this thread: a select clause sees [:close chan] */
+            if (janet_truthy(x)) {
+                janet_schedule(fiber, make_close_result(channel));
+            } else {
+                janet_schedule(fiber, janet_wrap_nil());
+            }
         }
     } else if (mode != JANET_CP_MODE_CLOSE) {
         /* Fiber has already been cancelled or resumed. */
@@ -1470,7 +1475,8 @@ JANET_CORE_FN(cfun_channel_close,
                 msg.argp = channel;
                 msg.tag = JANET_CP_MODE_CLOSE;
                 msg.argi = (int32_t) writer.sched_id;
-                msg.argj = janet_wrap_nil();
+                /* tell the other thread whether the waiter is a select clause (it gets [:close chan]) */
+                msg.argj = janet_wrap_boolean(writer.mode == JANET_CP_MODE_CHOICE_WRITE);
                 janet_chan_post(vm, msg);
             } else {
                 /* A waiter on a threaded channel was rooted when it was queued (see janet_thread_chan_cb) */
@@ -1493,7 +1499,7 @@ JANET_CORE_FN(cfun_channel_close,
                 msg.argp = channel;
                 msg.tag = JANET_CP_MODE_CLOSE;
                 msg.argi = (int32_t) reader.sched_id;
-                msg.argj = janet_wrap_nil();
+                msg.argj = janet_wrap_boolean(reader.mode == JANET_CP_MODE_CHOICE_READ);
                 janet_chan_post(vm, msg);
             } else {
                 if (janet_chan_is_threaded(channel)) janet_gcunroot(janet_wrap_fiber(reader.fiber));
